@@ -567,7 +567,7 @@ func routes() []*route {
 	// ---- profiles
 	prof := func(name, ctype string) *route {
 		return &route{Name: name, Method: "POST", Path: "/ingest?name=app.cpu%7Bpod%3Dp1%7D&from=1700000000&until=1700000010", Headers: map[string]string{"Content-Type": ctype},
-			Defects: map[string][]string{"from": paramDefects, "until": paramDefects, "name": {"absent", "empty", "garbage", "huge"}, "body": {"empty", "truncated", "garbage"}, "part": {"absent"}, "config": {"garbage", "wrong_type"}},
+			Defects: map[string][]string{"from": paramDefects, "until": paramDefects, "name": {"absent", "empty", "garbage", "huge", "open_brace", "only_brace", "close_only", "no_labels"}, "body": {"empty", "truncated", "garbage"}, "part": {"absent"}, "config": {"garbage", "wrong_type"}},
 			Valid: func() []byte {
 				if ctype == "binary/octet-stream" {
 					return pprofBytes()
@@ -615,6 +615,14 @@ func routes() []*route {
 						nm = "app%7Ba%3D%7D%7B%7B" // app{a=}{{
 					case "huge":
 						nm = "app%7Bk%3D" + strings.Repeat("v", 1200000) + "%7D"
+					case "open_brace":
+						nm = "app%7B" // app{   (the label slice bounds cross)
+					case "only_brace":
+						nm = "%7B"
+					case "close_only":
+						nm = "app%7D"
+					case "no_labels":
+						nm = "app"
 					}
 				case "body":
 					switch d {
@@ -1124,7 +1132,11 @@ func run(casesPath, outPath string, seed int64, nmut int) int {
 			if j := strings.Index(first, ","); j > 0 {
 				first = first[:j]
 			}
-			add(Finding{Signature: "hang|" + routeName + "|" + kind + "|" + strings.Fields(first + " ")[0], Msg: fmt.Sprintf("request %q is not answered within 5 s; goroutine(s) %s in %s", rq.Label, kind, where), Label: rq.Label, Req: small})
+			loc := "unknown"
+			if fl := strings.Fields(first); len(fl) > 0 {
+				loc = fl[0]
+			}
+			add(Finding{Signature: "hang|" + routeName + "|" + kind + "|" + loc, Msg: fmt.Sprintf("request %q is not answered within 5 s; goroutine(s) %s in %s", rq.Label, kind, where), Label: rq.Label, Req: small})
 			ch.kill()
 			restarts++
 			if ch, err = startChild(); err != nil {
